@@ -120,6 +120,17 @@ impl<R: Read> Reader<R> {
     pub fn where_am_i(&self) -> Location {
         self.location.clone()
     }
+
+    /// Like `where_am_i`, but a look-ahead byte that already belongs to the next token is not counted.
+    pub fn where_is_next_token(&self) -> Location {
+        let mut location = self.location.clone();
+        if let Some(ch) = self.current_byte {
+            if !matches!(ch, b' ' | b'\n' | b'\t' | b'\r') {
+                location.char_number -= 1;
+            }
+        }
+        location
+    }
 }
 
 impl Display for Location {
